@@ -282,6 +282,144 @@ func genC11(o *hx.Out, tier string) {
 		}
 		scn.CloseWithin(node, 10*time.Second)
 	}
+	// ---- routing: every received frame is forwarded to the other channels while more frames keep
+	// arriving on the same transport read; with and without a dialect ----
+	nrt := 8
+	if tier == "thorough" {
+		nrt = 120
+	}
+	for sc := 0; sc < nrt; sc++ {
+		runtime.GOMAXPROCS([]int{1, 2, 16}[sc%3])
+		raw := sc%2 == 0
+		pipes := []*scn.Pipe{scn.NewPipe("in"), scn.NewPipe("o1"), scn.NewPipe("o2")}
+		node := newNode(pipes, func(c *gomavlib.NodeConf) {
+			if !raw {
+				c.Dialect = d
+			}
+		})
+		n := 10 + r.Intn(40)
+		var frames [][]byte
+		var stream []byte
+		for i := 0; i < n; i++ {
+			m := hx.RandMessage(r, d.Messages[0], 2)
+			b := frameBytes(drw, validFrame(r, drw, m, r.Intn(4) != 0, nil))
+			frames = append(frames, b)
+			stream = append(stream, b...)
+		}
+		forwarded := make(chan struct{})
+		allOpen := make(chan struct{})
+		go func() {
+			k, opens := 0, 0
+			for evt := range node.Events() {
+				if _, ok := evt.(*gomavlib.EventChannelOpen); ok {
+					opens++
+					if opens == len(pipes) {
+						close(allOpen)
+					}
+				}
+				if fe, ok := evt.(*gomavlib.EventFrame); ok {
+					node.WriteFrameExcept(fe.Channel, fe.Frame) //nolint:errcheck
+					k++
+					if k == n {
+						close(forwarded)
+					}
+				}
+			}
+		}()
+		select {
+		case <-allOpen:
+		case <-time.After(scn.Timeout):
+			scn.NoteExpired()
+		}
+		// few large chunks: several frames per transport read
+		for len(stream) > 0 {
+			c := 1 + r.Intn(len(stream))
+			if c > 700 {
+				c = 700
+			}
+			pipes[0].Feed(stream[:c])
+			stream = stream[c:]
+		}
+		verdict := "ok"
+		select {
+		case <-forwarded:
+		case <-time.After(scn.Timeout):
+			scn.NoteExpired()
+			verdict = "FRAMES-NOT-ALL-RECEIVED"
+		}
+		for _, p := range pipes[1:] {
+			p.WaitWrites(func(ws [][]byte) bool { return len(ws) >= n })
+			ws := p.Writes()
+			if len(ws) != n && verdict == "ok" {
+				verdict = fmt.Sprintf("FORWARDED-COUNT %d of %d", len(ws), n)
+			}
+			for i := 0; i < len(ws) && i < n && verdict == "ok"; i++ {
+				if string(ws[i]) != string(frames[i]) {
+					verdict = fmt.Sprintf("FORWARDED-FRAME-%d-DIFFERS got=%s want=%s", i, hx.Hex(ws[i]), hx.Hex(frames[i]))
+				}
+			}
+		}
+		if len(pipes[0].Writes()) != 0 && verdict == "ok" {
+			verdict = "FORWARDED-BACK-TO-SENDER"
+		}
+		scn.CloseWithin(node, 10*time.Second)
+		o.Add(fmt.Sprintf("router raw=%v", raw), verdict, "expect", "ok", fmt.Sprintf("router raw=%v n=%d", raw, n))
+	}
+	// ---- a stalled channel does not keep writes from the healthy ones ----
+	for sc := 0; sc < 4; sc++ {
+		pipes := []*scn.Pipe{scn.NewPipe("stalled"), scn.NewPipe("healthy")}
+		node := newNode(pipes, func(c *gomavlib.NodeConf) { c.Dialect = d })
+		col := scn.NewCollector(node, 0, false)
+		chs, ok := openChannels(col, pipes)
+		if !ok {
+			o.Add("stalled sibling", "CHANNELS-NOT-OPEN", "fanchk", "eq", "-", "-")
+			node.Close()
+			continue
+		}
+		pipes[0].BlockWrites()
+		n := 90 + r.Intn(60)
+		done := make(chan struct{})
+		go func() {
+			defer close(done)
+			for i := 0; i < n; i++ {
+				node.WriteMessageAll(serialMsg(1000 + i)) //nolint:errcheck
+				if i%32 == 31 {
+					time.Sleep(200 * time.Microsecond)
+				}
+			}
+			node.WriteMessageTo(chs[1], serialMsg(markerSerial)) //nolint:errcheck
+		}()
+		verdict := ""
+		select {
+		case <-done:
+		case <-time.After(scn.Timeout):
+			scn.NoteExpired()
+			verdict = "SUBMIT-BLOCKED"
+		}
+		got := pipes[1].WaitWrites(func(ws [][]byte) bool {
+			if len(ws) == 0 {
+				return false
+			}
+			frs, err := scn.DecodeWire(ws[len(ws)-1:], drw)
+			return err == nil && serialOf(frs[0]) == markerSerial
+		})
+		serials, v2 := checkWire(pipes[1].Writes(), drw, nil, 10)
+		if verdict == "" {
+			verdict = v2
+		}
+		if !got && verdict == "ok" {
+			verdict = "MARKER-TIMEOUT"
+		}
+		var exp []int
+		for i := 0; i < n; i++ {
+			exp = append(exp, 1000+i)
+		}
+		exp = append(exp, markerSerial)
+		o.Add("stalled sibling: healthy channel gets everything", verdict, "fanchk", "eq", joinInts(exp), joinInts(serials))
+		pipes[0].UnblockWrites()
+		<-done
+		scn.CloseWithin(node, 10*time.Second)
+	}
 	fnode.Close()
 	runtime.GOMAXPROCS(runtime.NumCPU())
 	_ = reflect.TypeOf
